@@ -55,7 +55,9 @@ type withIface struct {
 }
 type errMarshaler struct{ N int }
 
-func (e errMarshaler) MarshalJSON() ([]byte, error) { return nil, errors.New("scripted marshaler error") }
+func (e errMarshaler) MarshalJSON() ([]byte, error) {
+	return nil, errors.New("scripted marshaler error")
+}
 
 type panicMarshaler struct{ N int }
 
@@ -164,15 +166,17 @@ var largeDoc = func() []byte {
 
 // persistent handles (reused across the whole process)
 var (
-	hEncBuf   bytes.Buffer
-	hEnc      = gojson.NewEncoder(&hEncBuf)
-	hFeed     = &feed{}
-	hDec      = gojson.NewDecoder(hFeed)
-	hPath, _  = gojson.CreatePath("$.a.b[1]")
-	hPath2, _ = gojson.CreatePath("$..k")
-	hQuery, _ = gojson.BuildFieldQuery("X", gojson.BuildSubFieldQuery("P").Fields("A"))
+	hEncBuf    bytes.Buffer
+	hEnc       = gojson.NewEncoder(&hEncBuf)
+	hFeed      = &feed{}
+	hDec       = gojson.NewDecoder(hFeed)
+	hPath, _   = gojson.CreatePath("$.a.b[1]")
+	hPath2, _  = gojson.CreatePath("$..k")
+	hQuery, _  = gojson.BuildFieldQuery("X", gojson.BuildSubFieldQuery("P").Fields("A"))
 	hQuery2, _ = gojson.BuildFieldQuery("V", "X")
 	hQuery3, _ = gojson.BuildFieldQuery("P")
+	hQuery4, _ = gojson.BuildFieldQuery("P", "X")
+	hQuery5, _ = gojson.BuildFieldQuery(gojson.BuildSubFieldQuery("P").Fields("B"), gojson.BuildSubFieldQuery("V").Fields("A"))
 )
 
 type feed struct{ pending []byte }
@@ -247,20 +251,48 @@ var Kinds = map[string]func() result{
 	"marshal:map": func() result {
 		return enc(func() ([]byte, error) { return gojson.Marshal(map[string][]int{"b": {1}, "a": nil, "c": {}}) })
 	},
-	"marshal:rec":   func() result { return enc(func() ([]byte, error) { return gojson.Marshal(recValue) }) },
-	"marshal:iface": func() result { return enc(func() ([]byte, error) { return gojson.Marshal(withIface{X: smallValue(), Y: []interface{}{1, "s", nil, ab{1, 2}}}) }) },
-	"indent:a":      func() result { return enc(func() ([]byte, error) { return gojson.MarshalIndent(smallValue(), ">", "  ") }) },
-	"indent:b":      func() result { return enc(func() ([]byte, error) { return gojson.MarshalIndent(withIface{X: recValue, Y: []interface{}{ab{1, 2}}}, "", "\t") }) },
-	"noescape":      func() result { return enc(func() ([]byte, error) { return gojson.MarshalNoEscape(smallValue()) }) },
-	"opt:unordered": func() result { return enc(func() ([]byte, error) { return gojson.MarshalWithOption(map[string]small{"only": smallValue()}, gojson.UnorderedMap()) }) },
-	"opt:nohtml":    func() result { return enc(func() ([]byte, error) { return gojson.MarshalWithOption(smallValue(), gojson.DisableHTMLEscape()) }) },
-	"opt:nonorm":    func() result { return enc(func() ([]byte, error) { return gojson.MarshalWithOption("a\xffb<", gojson.DisableNormalizeUTF8()) }) },
-	"opt:color":     func() result { return enc(func() ([]byte, error) { return gojson.MarshalWithOption(smallValue(), gojson.Colorize(gojson.DefaultColorScheme)) }) },
-	"opt:colorindent": func() result {
-		return enc(func() ([]byte, error) { return gojson.MarshalIndentWithOption(smallValue(), "", " ", gojson.Colorize(gojson.DefaultColorScheme)) })
+	"marshal:rec": func() result { return enc(func() ([]byte, error) { return gojson.Marshal(recValue) }) },
+	"marshal:iface": func() result {
+		return enc(func() ([]byte, error) {
+			return gojson.Marshal(withIface{X: smallValue(), Y: []interface{}{1, "s", nil, ab{1, 2}}})
+		})
 	},
-	"opt:debug": func() result { return enc(func() ([]byte, error) { return gojson.MarshalWithOption(smallValue(), gojson.DebugWith(io.Discard)) }) },
-	"ctxaware:marshal": func() result { return enc(func() ([]byte, error) { return gojson.Marshal(&ctxHolder{A: 1, P: &ctxProbe{2}}) }) },
+	"indent:a": func() result {
+		return enc(func() ([]byte, error) { return gojson.MarshalIndent(smallValue(), ">", "  ") })
+	},
+	"indent:b": func() result {
+		return enc(func() ([]byte, error) {
+			return gojson.MarshalIndent(withIface{X: recValue, Y: []interface{}{ab{1, 2}}}, "", "\t")
+		})
+	},
+	"noescape": func() result { return enc(func() ([]byte, error) { return gojson.MarshalNoEscape(smallValue()) }) },
+	"opt:unordered": func() result {
+		return enc(func() ([]byte, error) {
+			return gojson.MarshalWithOption(map[string]small{"only": smallValue()}, gojson.UnorderedMap())
+		})
+	},
+	"opt:nohtml": func() result {
+		return enc(func() ([]byte, error) { return gojson.MarshalWithOption(smallValue(), gojson.DisableHTMLEscape()) })
+	},
+	"opt:nonorm": func() result {
+		return enc(func() ([]byte, error) { return gojson.MarshalWithOption("a\xffb<", gojson.DisableNormalizeUTF8()) })
+	},
+	"opt:color": func() result {
+		return enc(func() ([]byte, error) {
+			return gojson.MarshalWithOption(smallValue(), gojson.Colorize(gojson.DefaultColorScheme))
+		})
+	},
+	"opt:colorindent": func() result {
+		return enc(func() ([]byte, error) {
+			return gojson.MarshalIndentWithOption(smallValue(), "", " ", gojson.Colorize(gojson.DefaultColorScheme))
+		})
+	},
+	"opt:debug": func() result {
+		return enc(func() ([]byte, error) { return gojson.MarshalWithOption(smallValue(), gojson.DebugWith(io.Discard)) })
+	},
+	"ctxaware:marshal": func() result {
+		return enc(func() ([]byte, error) { return gojson.Marshal(&ctxHolder{A: 1, P: &ctxProbe{2}}) })
+	},
 	"ctxaware:indent": func() result {
 		return enc(func() ([]byte, error) { return gojson.MarshalIndent(&ctxHolder{A: 1, P: &ctxProbe{2}}, "", " ") })
 	},
@@ -277,7 +309,9 @@ var Kinds = map[string]func() result{
 			return gojson.MarshalContext(gojson.SetFieldQueryToContext(context.WithValue(context.Background(), ctxKey{}, "s2"), hQuery3), &ctxHolder{A: 1, P: &ctxProbe{2}})
 		})
 	},
-	"ctx:plain": func() result { return enc(func() ([]byte, error) { return gojson.MarshalContext(context.Background(), smallValue()) }) },
+	"ctx:plain": func() result {
+		return enc(func() ([]byte, error) { return gojson.MarshalContext(context.Background(), smallValue()) })
+	},
 	"ctx:query1": func() result {
 		return enc(func() ([]byte, error) {
 			return gojson.MarshalContext(gojson.SetFieldQueryToContext(context.Background(), hQuery), qT{X: 1, P: &ab{2, 3}, V: ab{4, 5}})
@@ -286,6 +320,30 @@ var Kinds = map[string]func() result{
 	"ctx:query2": func() result {
 		return enc(func() ([]byte, error) {
 			return gojson.MarshalContext(gojson.SetFieldQueryToContext(context.Background(), hQuery2), qT{X: 1, P: &ab{2, 3}, V: ab{4, 5}})
+		})
+	},
+	// a query that selects the pointer member WHOLE: after a query that sub-selected it the full member must still come out
+	"ctx:query3": func() result {
+		return enc(func() ([]byte, error) {
+			return gojson.MarshalContext(gojson.SetFieldQueryToContext(context.Background(), hQuery4), qT{X: 1, P: &ab{2, 3}, V: ab{4, 5}})
+		})
+	},
+	"ctx:query4": func() result {
+		return enc(func() ([]byte, error) {
+			return gojson.MarshalContext(gojson.SetFieldQueryToContext(context.Background(), hQuery5), qT{X: 1, P: &ab{2, 3}, V: ab{4, 5}})
+		})
+	},
+	// results larger than the pooled buffer (the encoder grows it): every entry point must still hand out a private copy
+	"indent:large": func() result {
+		return enc(func() ([]byte, error) { return gojson.MarshalIndent(largeValue(), "", "  ") })
+	},
+	"noescape:large": func() result { return enc(func() ([]byte, error) { return gojson.MarshalNoEscape(largeValue()) }) },
+	"ctx:large": func() result {
+		return enc(func() ([]byte, error) { return gojson.MarshalContext(context.Background(), largeValue()) })
+	},
+	"opt:large": func() result {
+		return enc(func() ([]byte, error) {
+			return gojson.MarshalIndentWithOption(largeValue(), "", " ", gojson.DisableHTMLEscape())
 		})
 	},
 	"query:reuse": func() result {
@@ -327,9 +385,18 @@ var Kinds = map[string]func() result{
 			return gojson.Marshal(holder{Before: map[string]int{"a": 1, "b": 2}, In: []interface{}{[]interface{}{panicMarshaler{1}}}, After: "z"})
 		})
 	},
-	"fail:unsupported": func() result { return enc(func() ([]byte, error) { return gojson.Marshal(struct{ A int; C chan int }{1, nil}) }) },
+	"fail:unsupported": func() result {
+		return enc(func() ([]byte, error) {
+			return gojson.Marshal(struct {
+				A int
+				C chan int
+			}{1, nil})
+		})
+	},
 	"fail:nan": func() result {
-		return enc(func() ([]byte, error) { return gojson.MarshalIndent(map[string]interface{}{"a": []float64{1, math.NaN()}}, "", " ") })
+		return enc(func() ([]byte, error) {
+			return gojson.MarshalIndent(map[string]interface{}{"a": []float64{1, math.NaN()}}, "", " ")
+		})
 	},
 	"fail:cycle": func() result {
 		return enc(func() ([]byte, error) {
@@ -338,7 +405,9 @@ var Kinds = map[string]func() result{
 			return gojson.Marshal(c)
 		})
 	},
-	"fail:marshaler-badjson": func() result { return enc(func() ([]byte, error) { return gojson.Marshal([]interface{}{1, badMarshaler{}}) }) },
+	"fail:marshaler-badjson": func() result {
+		return enc(func() ([]byte, error) { return gojson.Marshal([]interface{}{1, badMarshaler{}}) })
+	},
 	"um:small": func() result {
 		return dec(`{"a":7,"b":"x<y\n","c":[1,2,3],"d":{"k":"v"},"e":{"a":1,"b":"in"}}`, func() interface{} { return new(small) }, gojson.Unmarshal)
 	},
@@ -357,7 +426,9 @@ var Kinds = map[string]func() result{
 			return gojson.UnmarshalWithOption(in, d, gojson.DecodeFieldPriorityFirstWin())
 		})
 	},
-	"um:dup": func() result { return dec(`{"a":1,"a":2,"b":3}`, func() interface{} { return new(ab) }, gojson.Unmarshal) },
+	"um:dup": func() result {
+		return dec(`{"a":1,"a":2,"b":3}`, func() interface{} { return new(ab) }, gojson.Unmarshal)
+	},
 	"um:ctx": func() result {
 		return dec(`{"a":3,"b":4}`, func() interface{} { return new(ab) }, func(in []byte, d interface{}) error {
 			return gojson.UnmarshalContext(context.Background(), in, d)
@@ -461,9 +532,13 @@ var Kinds = map[string]func() result{
 	"fail:um-syntax-mid": func() result {
 		return dec(`{"a":7,"b":"x","c":[1,2,x],"d":{"k":"v"}}`, func() interface{} { return new(small) }, gojson.Unmarshal)
 	},
-	"fail:um-syntax-end": func() result { return dec(`{"a":7,"b":"x","e":{"a":1}`, func() interface{} { return new(small) }, gojson.Unmarshal) },
-	"fail:um-type":       func() result { return dec(`{"a":"str","b":"x"}`, func() interface{} { return new(small) }, gojson.Unmarshal) },
-	"fail:um-range":      func() result { return dec(`[1,2,300]`, func() interface{} { return new([]int8) }, gojson.Unmarshal) },
+	"fail:um-syntax-end": func() result {
+		return dec(`{"a":7,"b":"x","e":{"a":1}`, func() interface{} { return new(small) }, gojson.Unmarshal)
+	},
+	"fail:um-type": func() result {
+		return dec(`{"a":"str","b":"x"}`, func() interface{} { return new(small) }, gojson.Unmarshal)
+	},
+	"fail:um-range": func() result { return dec(`[1,2,300]`, func() interface{} { return new([]int8) }, gojson.Unmarshal) },
 	"fail:um-unmarshaler": func() result {
 		return dec(`[{"ok":1},"bad"]`, func() interface{} { return new([]errUnmarshaler) }, gojson.Unmarshal)
 	},
@@ -474,7 +549,9 @@ var Kinds = map[string]func() result{
 			return dd.Decode(d)
 		})
 	},
-	"fail:um-slice-mid": func() result { return dec(`[{"a":1,"b":2} {"a":3}]`, func() interface{} { return new([]ab) }, gojson.Unmarshal) },
+	"fail:um-slice-mid": func() result {
+		return dec(`[{"a":1,"b":2} {"a":3}]`, func() interface{} { return new([]ab) }, gojson.Unmarshal)
+	},
 	"fail:um-mapslice-mid": func() result {
 		return dec(`[{"x":1} {"y":2}]`, func() interface{} { return new([]map[string]int) }, gojson.Unmarshal)
 	},
@@ -483,21 +560,43 @@ var Kinds = map[string]func() result{
 			return gojson.NewDecoder(io.MultiReader(bytes.NewReader(in), errReader{})).Decode(d)
 		})
 	},
-	"util:valid": func() result { return result{digest: fmt.Sprint(gojson.Valid([]byte(`{"a":[1,2,{"b":null}]}`)), gojson.Valid([]byte(`{"a":[1,2,{"b":nul}]}`)))} },
+	"util:valid": func() result {
+		return result{digest: fmt.Sprint(gojson.Valid([]byte(`{"a":[1,2,{"b":null}]}`)), gojson.Valid([]byte(`{"a":[1,2,{"b":nul}]}`)))}
+	},
 	"util:compact": func() result {
-		return enc(func() ([]byte, error) { var o bytes.Buffer; err := gojson.Compact(&o, []byte(`{ "a" : [ 1 , 2 ] , "b" : "x y" }`)); return o.Bytes(), err })
+		return enc(func() ([]byte, error) {
+			var o bytes.Buffer
+			err := gojson.Compact(&o, []byte(`{ "a" : [ 1 , 2 ] , "b" : "x y" }`))
+			return o.Bytes(), err
+		})
 	},
 	"util:indent": func() result {
-		return enc(func() ([]byte, error) { var o bytes.Buffer; err := gojson.Indent(&o, []byte(`{"a":[1,{"b":[]}],"c":{}}`), ">", "  "); return o.Bytes(), err })
+		return enc(func() ([]byte, error) {
+			var o bytes.Buffer
+			err := gojson.Indent(&o, []byte(`{"a":[1,{"b":[]}],"c":{}}`), ">", "  ")
+			return o.Bytes(), err
+		})
 	},
 	"util:htmlescape": func() result {
-		return enc(func() ([]byte, error) { var o bytes.Buffer; gojson.HTMLEscape(&o, []byte(`{"a":"<b>&"}`)); return o.Bytes(), nil })
+		return enc(func() ([]byte, error) {
+			var o bytes.Buffer
+			gojson.HTMLEscape(&o, []byte(`{"a":"<b>&"}`))
+			return o.Bytes(), nil
+		})
 	},
 	"util:compact-bad": func() result {
-		return enc(func() ([]byte, error) { var o bytes.Buffer; err := gojson.Compact(&o, []byte(`{ "a" : [ 1 , 2 `)); return o.Bytes(), err })
+		return enc(func() ([]byte, error) {
+			var o bytes.Buffer
+			err := gojson.Compact(&o, []byte(`{ "a" : [ 1 , 2 `))
+			return o.Bytes(), err
+		})
 	},
 	"util:indent-bad": func() result {
-		return enc(func() ([]byte, error) { var o bytes.Buffer; err := gojson.Indent(&o, []byte(`{"a":[1,{"b":[}],"c":{}}`), ">", "  "); return o.Bytes(), err })
+		return enc(func() ([]byte, error) {
+			var o bytes.Buffer
+			err := gojson.Indent(&o, []byte(`{"a":[1,{"b":[}],"c":{}}`), ">", "  ")
+			return o.Bytes(), err
+		})
 	},
 	"path:extract": func() result {
 		return enc(func() ([]byte, error) {
